@@ -518,7 +518,6 @@ class POXCore (EventMixin):
       components = list(components)
     else:
       try:
-        _ = components[0]
         components = list(components)
       except:
         components = [components]
